@@ -655,11 +655,31 @@ func checkM2(c *Ctx, jr *joinRoles) {
 		if cm == nil {
 			continue
 		}
-		_, path, okp := deepStrip(cm.L).FieldPath()
-		if !(okp && path[len(path)-1] == "interruptInterval" && cm.Op == token.EQL && cm.R.String() == "0") {
+		// which successor is taken when interruptInterval is zero: x == 0 / x <= 0 (true side),
+		// x != 0 / 0 < x (false side); the interval is never negative (T5)
+		zeroSucc := -1
+		isII := func(s *Sym) bool {
+			_, path, okp := deepStrip(s).FieldPath()
+			return okp && path[len(path)-1] == "interruptInterval"
+		}
+		switch {
+		case isII(cm.L) && cm.R.String() == "0" && cm.LC == 0 && cm.RC == 0 && (cm.Op == token.EQL || cm.Op == token.LEQ):
+			zeroSucc = 0
+		case isII(cm.L) && cm.R.String() == "0" && cm.LC == 0 && cm.RC == 1 && cm.Op == token.LSS:
+			zeroSucc = 0
+		case isII(cm.L) && cm.R.String() == "0" && cm.LC == 0 && cm.RC == 0 && cm.Op == token.NEQ:
+			zeroSucc = 1
+		case isII(cm.R) && cm.L.String() == "0" && cm.LC == 0 && cm.RC == 0 && cm.Op == token.LSS:
+			zeroSucc = 1
+		case isII(cm.R) && cm.L.String() == "0" && cm.LC == 0 && cm.RC == 0 && (cm.Op == token.EQL):
+			zeroSucc = 0
+		case isII(cm.R) && cm.L.String() == "0" && cm.LC == 0 && cm.RC == 0 && (cm.Op == token.NEQ):
+			zeroSucc = 1
+		}
+		if zeroSucc < 0 {
 			continue
 		}
-		// true successor must call a loop function without ticker clause, and not the timed one
+		// the zero successor must call a loop function without ticker clause, and not the timed one
 		untimedCalled, timedCalled := false, false
 		var walk func(x *ssa.BasicBlock, seen map[*ssa.BasicBlock]bool)
 		walk = func(x *ssa.BasicBlock, seen map[*ssa.BasicBlock]bool) {
@@ -694,7 +714,7 @@ func checkM2(c *Ctx, jr *joinRoles) {
 				walk(s, seen)
 			}
 		}
-		walk(b.Succs[0], map[*ssa.BasicBlock]bool{b: true})
+		walk(b.Succs[zeroSucc], map[*ssa.BasicBlock]bool{b: true})
 		if untimedCalled && !timedCalled {
 			ok = true
 		} else {
